@@ -101,6 +101,7 @@ func (e *Env) runMethods() error {
 	var mu sync.Mutex
 	var expectBody, answer []byte
 	var gotBody []byte
+	var gotBodies [][]byte // every request body since the last reset (concurrent pass)
 	arrived := make(chan struct{}, 16)
 	gen := func(seed uint64) *tlx.AGen { return &tlx.AGen{Sch: sch, S: &seedSrc{x: seed}, MaxDepth: 2} }
 	e.Srv.OnRequest = func(c *refsrv.Conn, r *refsrv.Request) {
@@ -130,6 +131,7 @@ func (e *Env) runMethods() error {
 		}
 		mu.Lock()
 		gotBody = append([]byte{}, r.Body...)
+		gotBodies = append(gotBodies, gotBody)
 		ans := answer
 		mu.Unlock()
 		if ans != nil {
@@ -406,8 +408,134 @@ func (e *Env) runMethods() error {
 			e.Res.Methods = append(e.Res.Methods, mr)
 		}
 	}
+	// concurrent pass: the same method from four goroutines at once, each with its own arguments (parts of one upload,
+	// several chats). The server refuses every call with an rpc_error: only the requests are looked at - each of them
+	// carries the arguments of exactly one of the calls.
+	n := uint64(0)
+	for _, d := range sch.API(false) {
+		if !d.Function || d.Generic || (spec.Only != "" && spec.Only != d.Name) {
+			continue
+		}
+		n++
+		pt, ok := reg.ByID[d.ID]
+		if !ok || pt.Kind() != reflect.Ptr || len(d.Params) == 0 {
+			continue
+		}
+		mr := MethodResult{Function: d.Name, Pass: 3, Method: strings.TrimSuffix(pt.Elem().Name(), "Params"), Result: "requests-only"}
+		m := cv.MethodByName(mr.Method)
+		if !m.IsValid() {
+			continue // reported by the first pass
+		}
+		const K = 4
+		var wants [][]byte
+		var calls [][]reflect.Value
+		for k := uint64(0); k < K; k++ {
+			req, err := gen(spec.Seed*1000003+n*7919+3*104729+k*15485863).Val(d, 2)
+			if err != nil {
+				break
+			}
+			alternate(req, spec.Invert != (k%2 == 1))
+			want, err := tls.Encode(req)
+			if err != nil {
+				break
+			}
+			gv, err := tlx.Bridge(reg, req)
+			if err != nil {
+				break
+			}
+			mt := m.Type()
+			var args []reflect.Value
+			if mt.NumIn() == 1 && mt.In(0) == pt {
+				args = []reflect.Value{gv}
+			} else {
+				if mt.NumIn() != gv.Elem().NumField() {
+					break
+				}
+				for i := 0; i < mt.NumIn(); i++ {
+					if !gv.Elem().Field(i).Type().AssignableTo(mt.In(i)) {
+						args = nil
+						break
+					}
+					args = append(args, gv.Elem().Field(i))
+				}
+				if args == nil {
+					break
+				}
+			}
+			wants = append(wants, want)
+			calls = append(calls, args)
+		}
+		if len(calls) != K {
+			continue // generation or bridging failed: counted in the first pass
+		}
+		mr.Args = len(calls[0])
+		mu.Lock()
+		expectBody, answer, gotBody, gotBodies = nil, refsrv.RpcError(400, "CONCURRENT_PASS"), nil, nil
+		mu.Unlock()
+		for len(arrived) > 0 {
+			<-arrived
+		}
+		var wg sync.WaitGroup
+		start := make(chan struct{})
+		for k := range calls {
+			wg.Add(1)
+			go func(args []reflect.Value) {
+				defer wg.Done()
+				defer func() { recover() }()
+				<-start
+				m.Call(args)
+			}(calls[k])
+		}
+		close(start)
+		done := make(chan struct{})
+		go func() { wg.Wait(); close(done) }()
+		select {
+		case <-done:
+		case <-time.After(e.stepPatience()):
+			mr.Msg = "INFRA: concurrent calls did not return"
+			e.Res.Methods = append(e.Res.Methods, mr)
+			continue
+		}
+		mu.Lock()
+		got := append([][]byte{}, gotBodies...)
+		mu.Unlock()
+		left := map[string]int{}
+		for _, w := range wants {
+			left[string(w)]++
+		}
+		mr.OK = true
+		for _, g := range got {
+			if left[string(g)] > 0 {
+				left[string(g)]--
+				continue
+			}
+			mr.OK = false
+			mr.Msg = fmt.Sprintf("%d calls of the method at the same time, each with its own arguments: the server received a request (%d bytes) that is the schema serialisation of none of the calls' arguments (nearest: %s)", K, len(g), describeDiff(g, nearest(g, wants)))
+			break
+		}
+		if mr.OK && len(got) != K {
+			mr.OK = false
+			mr.Msg = fmt.Sprintf("%d calls of the method at the same time: the server received %d requests", K, len(got))
+		}
+		e.Res.Methods = append(e.Res.Methods, mr)
+	}
 	e.Finish()
 	return nil
+}
+
+// nearest returns the candidate sharing the longest prefix with g.
+func nearest(g []byte, cands [][]byte) []byte {
+	best, bl := cands[0], -1
+	for _, c := range cands {
+		l := 0
+		for l < len(g) && l < len(c) && g[l] == c[l] {
+			l++
+		}
+		if l > bl {
+			best, bl = c, l
+		}
+	}
+	return best
 }
 
 func describeDiff(got, want []byte) string {
